@@ -45,6 +45,43 @@ def _fold(n):
     return None
 
 
+def _stdlib_ints(tree):
+    """integer constants of the standard library that the file refers to by name (io.DEFAULT_BUFFER_SIZE,
+    select.PIPE_BUF, ...): thresholds that are not literals of the package but are still named in its source"""
+    import importlib
+    import sys
+
+    std = getattr(sys, "stdlib_module_names", frozenset())
+    mods, names = {}, {}
+    for n in ast.walk(tree):
+        if isinstance(n, ast.Import):
+            for a in n.names:
+                if a.name.split(".")[0] in std:
+                    mods[(a.asname or a.name).split(".")[0]] = a.name if a.asname else a.name.split(".")[0]
+        elif isinstance(n, ast.ImportFrom) and n.module and n.level == 0 and n.module.split(".")[0] in std:
+            for a in n.names:
+                names[a.asname or a.name] = (n.module, a.name)
+    out = []
+
+    def val(modname, attr):
+        try:
+            v = getattr(importlib.import_module(modname), attr)
+        except Exception:
+            return
+        if isinstance(v, int) and not isinstance(v, bool):
+            out.append(abs(v))
+
+    for n in ast.walk(tree):
+        if isinstance(n, ast.Attribute) and isinstance(n.value, ast.Name) and n.value.id in mods:
+            val(mods[n.value.id], n.attr)
+        elif isinstance(n, ast.Name) and n.id in names:
+            val(*names[n.id])
+        elif isinstance(n, ast.Call) and isinstance(n.func, ast.Name) and n.func.id == "getattr" and len(n.args) >= 2 \
+                and isinstance(n.args[0], ast.Name) and n.args[0].id in mods and isinstance(n.args[1], ast.Constant) and isinstance(n.args[1].value, str):
+            val(mods[n.args[0].id], n.args[1].value)
+    return out
+
+
 def src_root():
     return os.environ.get("VERIF_SRC") or "/repo/src"
 
@@ -73,6 +110,9 @@ def _scan(sub, root):
                 tree = ast.parse(open(os.path.join(dp, fn), encoding="utf-8").read())
             except Exception:
                 continue
+            for w in _stdlib_ints(tree):
+                if 2 <= w <= MAX_SIZE:
+                    out.add(w)
             for n in ast.walk(tree):
                 v = _fold(n)
                 if v is None:
